@@ -185,7 +185,7 @@ def run_check(prop, tier, seed, spec, work, t0):
     only = os.environ.get("VERIF_ONLY")
     if only:
         jobs = [dict(j, entries=[only]) for j in jobs[:1]]
-    pkgs = sorted({j["pkg"] for j in jobs})
+    pkgs = sorted({j["pkg"] for j in jobs} | set(spec.get("extra_pkgs", [])))
     dep_ov = {v: os.path.join(VERIF, r) for v, r in spec.get("dep_overlays", {}).items()}
     sym_ov, nat_ov = build_overlays(work, pkgs, dep_ov)
     espec = {
@@ -369,7 +369,7 @@ def replay_one(path):
     work = tempfile.mkdtemp(prefix="vreplay_")
     try:
         dep_ov = {v: os.path.join(VERIF, r) for v, r in spec.get("dep_overlays", {}).items()}
-        _, nat_ov = build_overlays(work, [rec["pkg"]], dep_ov)
+        _, nat_ov = build_overlays(work, sorted({rec["pkg"]} | set(spec.get("extra_pkgs", []))), dep_ov)
         res = native_replay(work, nat_ov, rec["pkg"], [rec["case"]])
         r = res.get(rec["case"]["id"])
         print(json.dumps({"expected": rec["expect"], "native": r}, indent=1))
